@@ -29,6 +29,22 @@ func goccWorkload(copyDir string, pkg string, withRepo bool, extra []*corpus.Gra
 		out = append(out, &GrammarCase{ID: g.ID, Text: g.Render(pkg, engine.ModuleName+"/act"), File: "g.bnf", NeedFlags: g.Flags,
 			IR: g, Compilable: !g.NoCompile, HasSyntax: g.HasSyntax()})
 	}
+	// the same grammars inside a markdown file (code fences, prose around and between them)
+	for _, g := range append(corpus.Fixed(), extra...) {
+		switch g.ID {
+		case "calc", "errdeep", "lexonly", "awk-quote", "nolexer":
+		default:
+			continue
+		}
+		text := g.Render(pkg, engine.ModuleName+"/act")
+		cut := strings.Index(text[len(text)/3:], "\n\n")
+		if cut < 0 {
+			continue
+		}
+		cut += len(text) / 3
+		md := "# Grammar " + g.ID + "\n\nSome prose with `inline code` and a | table | row |\n\n```\n" + text[:cut] + "\n```\n\nMore prose: A : b ; << not code >>\n\n```\n" + text[cut:] + "\n```\n\ntrailing words\n"
+		out = append(out, &GrammarCase{ID: g.ID + ".md", Text: md, File: "g.md", NeedFlags: g.Flags, IR: nil, HasSyntax: g.HasSyntax()})
+	}
 	if !withRepo {
 		return out
 	}
